@@ -401,6 +401,11 @@ def tie_b_helpers(res, workdir):
     return tie_b_generic(res, workdir, 'helpers', 'emit_helpers_v', 'HelperKernels.v', 'BridgeHelpers.v', 'convenience setters')
 
 
+def tie_b_gnss(res, workdir):
+    """Tie B for the CFG-GNSS helpers (C17): _find_entry / enable_gnss / disable_gnss / the two presets, X4_Flags.enable/disable."""
+    return tie_b_generic(res, workdir, 'gnss', 'emit_gnss_v', 'GnssKernels.v', 'BridgeGnss.v', 'CFG-GNSS enable/disable helpers')
+
+
 def tie_b_gpsd(res, workdir):
     """Tie B for the gpsd handshake: _parse_gpsd_msg / _parse_version / _parse_devices of ubxlib/server.py."""
     return tie_b_generic(res, workdir, 'gpsd', 'emit_gpsd_v', 'GpsdKernels.v', 'BridgeGpsd.v', 'gpsd handshake parsing')
